@@ -292,6 +292,44 @@ func %s() {
 `, v.desc, name, v.name, v.name, v.name, v.name)
 		fam.Instances = append(fam.Instances, Instance{Func: name, Stratum: "larger-set", Desc: "six-rule pool, " + v.desc, Expect: []string{"executed"}})
 	}
+	b.WriteString(`
+// every rule removed by name: executions on every instance run nothing and hand out nothing of earlier requests
+func H_remove_all_then_results() {
+	text := "rule \"a\" salience 2 begin\n ver(\"a\", 1)\n return 11\nend\nrule \"b\" salience 1 begin\n ver(\"b\", 1)\n return 22\nend\n"
+	gp, e := NewGenginePool(1, 2, SortModel, text, zzApis())
+	zzMust(e, "pool construction")
+	for which := 0; which < 2; which++ {
+		_, _, res := zzRunOn(gp, which)
+		vnd.Assert(len(res) == 2, "both rules return on every instance")
+	}
+	zzMust(gp.RemoveRules([]string{"a", "b"}), "removal of every rule")
+	vnd.Assert(gp.GetRulesNumber() == 0, "the rule count query agrees with the denoted set")
+	for which := 0; which < 2; which++ {
+		got, _, res := zzRunOn(gp, which)
+		vnd.Assert(len(got) == 0, "an empty pool runs nothing")
+		vnd.Assert(len(res) == 0, "an empty pool hands out no results")
+		for model := 0; model < 2; model++ {
+			var held *gengineWrapper
+			if which == 1 {
+				held, _ = gp.getGengine()
+			}
+			var r2 map[string]interface{}
+			if model == 0 {
+				_, r2 = gp.ExecuteRulesWithMultiInputWithSpecifiedEM(map[string]interface{}{"req": int64(1)})
+			} else {
+				_, r2 = gp.ExecuteConcurrent(map[string]interface{}{"req": int64(1)})
+			}
+			if held != nil {
+				gp.putGengineLocked(held)
+			}
+			vnd.Quiesce()
+			vnd.Assert(len(r2) == 0, "an empty pool hands out no results")
+		}
+	}
+	vnd.Reach("executed")
+}
+`)
+	fam.Instances = append(fam.Instances, Instance{Func: "H_remove_all_then_results", Stratum: "sequence", Desc: "returning rules, then every rule removed by name", Expect: []string{"executed"}})
 	// after a model change the *SpecifiedEM entry points follow the new model
 	for m := 1; m <= 4; m++ {
 		for _, ep := range []struct{ id, call string }{
